@@ -1,10 +1,15 @@
 package checks
 
 import (
+	"bytes"
 	"context"
 	"fmt"
 	"io"
+	"os"
+	"os/exec"
+	"path/filepath"
 	"strings"
+	"sync"
 	"time"
 
 	"grol.io/grol/eval"
@@ -282,6 +287,198 @@ var c15ScriptStmts = func() []string {
 	return out
 }()
 
+// ---- the interactive loop itself (the consumer that accumulates pending lines), driven through the real command ----
+
+// c15InteractiveRun feeds the lines to `grol` reading its standard input interactively (line ends are carriage
+// returns, as typed) and returns the lines the program printed with the OUT: prefix.
+func c15InteractiveRun(grol, dir string, lines []string) (string, error) {
+	cmd := exec.Command(grol, "-no-auto", "-quiet", "-max-duration", "20s")
+	cmd.Dir = dir
+	cmd.Env = append(os.Environ(), "GOMEMLIMIT=1GiB", "NO_COLOR=1", "TERM=dumb")
+	in, err := cmd.StdinPipe()
+	if err != nil {
+		return "", err
+	}
+	var mu sync.Mutex
+	var buf bytes.Buffer
+	w := &lockedWriter{mu: &mu, b: &buf}
+	cmd.Stdout, cmd.Stderr = w, w
+	if err := cmd.Start(); err != nil {
+		return "", err
+	}
+	_, _ = io.WriteString(in, strings.Join(lines, "\r")+"\rprintln(\"OUT:END\")\r")
+	// the input stays open until the last line was evaluated (an end of input discards what is still pending)
+	deadline := time.Now().Add(60 * time.Second)
+	exited := make(chan struct{})
+	go func() { _ = cmd.Wait(); close(exited) }()
+	for time.Now().Before(deadline) {
+		mu.Lock()
+		done := strings.Contains(buf.String(), "\nOUT:END")
+		mu.Unlock()
+		if done {
+			break
+		}
+		select {
+		case <-exited:
+			deadline = time.Now()
+		case <-time.After(5 * time.Millisecond):
+		}
+	}
+	_ = in.Close()
+	select {
+	case <-exited:
+	case <-time.After(20 * time.Second):
+		_ = cmd.Process.Kill()
+		<-exited
+	}
+	mu.Lock()
+	defer mu.Unlock()
+	return c15OutLines(buf.String()), nil
+}
+
+type lockedWriter struct {
+	mu *sync.Mutex
+	b  *bytes.Buffer
+}
+
+func (l *lockedWriter) Write(p []byte) (int, error) {
+	l.mu.Lock()
+	defer l.mu.Unlock()
+	return l.b.Write(p)
+}
+
+func c15OutLines(all string) string {
+	var out []string
+	for _, l := range strings.Split(strings.ReplaceAll(all, "\r", ""), "\n") {
+		if strings.HasPrefix(l, "OUT:") {
+			out = append(out, l)
+		}
+	}
+	return strings.Join(out, "\n")
+}
+
+func c15Interactive(c *core.Ctx, bounds *[]string) {
+	self, _ := os.Executable()
+	grol := self + ".grol"
+	if _, err := os.Stat(grol); err != nil {
+		c.Note("cli-binary-missing", 1)
+		return
+	}
+	dir, err := os.MkdirTemp("", "c15int")
+	if err != nil {
+		return
+	}
+	defer os.RemoveAll(dir)
+	// the words the loop itself understands, as variables, alone on a line inside every open construct
+	words := []string{"help", "history", "exit", "info", "quit", "!1", "!2"}
+	constructs := [][2]string{{"x = [\n", "\n]"}, {"x = {\"k\":\n", "\n}"}, {"x = str(\n", "\n)"}, {"x = (\n", "\n)"}, {"x = 1 +\n", ""}, {"x = `a\n", "\nb`"},
+		{"/* c\n", "\n*/ x = 1"}, {"x = if true {\n", "\n}"}, {"x = func() {\n", "\n}()"}, {"x = [1,\n2,\n", ",\n3]"}, {"x = \"a\" +\n`\n", "\n`"}}
+	n := 0
+	for ci, con := range constructs {
+		for _, w := range words {
+			key := fmt.Sprintf("interactive|%d|%s", ci, w)
+			if !c.MineNoDedup("interactive", key) {
+				continue
+			}
+			inner := w
+			if strings.HasPrefix(w, "!") && !strings.Contains(con[0], "`") && !strings.HasPrefix(con[0], "/*") {
+				continue // !1 is only text inside a string or a comment
+			}
+			script := "help = 7\nhistory = 8\nexit = 9\nquit = 10\n" + con[0] + inner + con[1] + "\nprintln(\"OUT:\", json(x))"
+			cs := core.Case{Kind: "interactive", Data: script}
+			c.Current(cs)
+			notCase := false
+			v := c.Run(func() *core.Viol {
+				file := filepath.Join(dir, fmt.Sprintf("s%d_%d.gr", ci, n))
+				_ = os.WriteFile(file, []byte(script+"\nprintln(\"OUT:END\")\n"), 0o644)
+				wb, err := exec.Command(grol, "-no-auto", "-quiet", file).CombinedOutput()
+				whole := c15OutLines(string(wb))
+				if err != nil || !strings.Contains(whole, "OUT:END") {
+					notCase = true
+					return nil
+				}
+				got, err := c15InteractiveRun(grol, dir, strings.Split(script, "\n"))
+				if err != nil {
+					return nil
+				}
+				if got != whole {
+					return &core.Viol{Class: "interactive-differs", Detail: fmt.Sprintf("typed a line at a time the script printed %q, evaluated as a file %q", got, whole), Case: cs, FindText: script}
+				}
+				return nil
+			})
+			n++
+			o := "interactive-equal"
+			if v != nil {
+				o = v.Class
+			}
+			if notCase {
+				c.CountNT(key, "not-a-case", false)
+				continue
+			}
+			c.CountNT(key, o, true)
+		}
+	}
+	*bounds = append(*bounds, fmt.Sprintf("interactive loop: %d open constructs x %d words the loop understands (help, history, exit, !n, ...) alone on a continuation line, typed a line at a time into the real grol command versus the same text as a file", len(constructs), len(words)))
+}
+
+// c15AutoLoadLines: a state file whose lines have every length around the scanner limits, loaded a line at a time by
+// repl.AutoLoad under every option that bounds lengths, versus evaluated in one go.
+func c15AutoLoadLines(c *core.Ctx, bounds *[]string) {
+	lens := []int{40, 4000, 8001, 65535, 65536, 65537, 70000, 131073, 300000}
+	n := 0
+	for _, L := range lens {
+		for _, kind := range []string{"func", "string", "lambda"} {
+			for _, mvl := range []int{0, 100, 4000, 100000} {
+				key := fmt.Sprintf("autoloadlines|%d|%s|%d", L, kind, mvl)
+				if !c.MineNoDedup("autoloadlines", key) {
+					continue
+				}
+				n++
+				var long string
+				switch kind {
+				case "func":
+					long = "func big(n){" + strings.Repeat("n=n+1 ", (L-20)/6) + "n}"
+				case "string":
+					long = "big=\"" + strings.Repeat("s", L-6) + "\""
+				default:
+					long = "big=n=>{" + strings.Repeat("n=n+1 ", (L-20)/6) + "n}"
+				}
+				text := "aa=1\n" + long + "\nzz=[aa,2]\n"
+				cs := core.Case{Kind: "autoloadlines", Cfg: fmt.Sprint(mvl), Data: fmt.Sprintf("%s line of %d bytes between two short ones", kind, len(long))}
+				c.Current(cs)
+				v := c.Run(func() *core.Viol {
+					dir, err := os.MkdirTemp("", "c15al")
+					if err != nil {
+						return nil
+					}
+					defer os.RemoveAll(dir)
+					old, _ := os.Getwd()
+					_ = os.Chdir(dir)
+					defer func() { _ = os.Chdir(old) }()
+					_ = os.WriteFile(".gr", []byte(text), 0o644)
+					a := newSess(sessCfg{})
+					lerr := repl.AutoLoad(a.s, repl.Options{AutoLoad: true, MaxValueLen: mvl})
+					b := newSess(sessCfg{})
+					r := implEval(b, text, 10000000)
+					if r.isErr {
+						return &core.Viol{Class: "HARNESS-autoloadlines", Detail: r.errText, Case: cs}
+					}
+					if ga, gb := globalsDump(a.s), globalsDump(b.s); ga != gb || lerr != nil {
+						return &core.Viol{Class: "autoload-differs", Detail: fmt.Sprintf("MaxValueLen %d, %s line of %d bytes: loaded a line at a time (err %v) the globals are %s; evaluated at once %s", mvl, kind, len(long), lerr, trunc(ga, 200), trunc(gb, 200)), Case: cs}
+					}
+					return nil
+				})
+				o := "autoload-equal"
+				if v != nil {
+					o = v.Class
+				}
+				c.CountNT(key, o, o != "not-a-case")
+			}
+		}
+	}
+	*bounds = append(*bounds, fmt.Sprintf("state files with one line of each of %d lengths (40 .. 300000 bytes: named function, string, lambda) between short lines x MaxValueLen {0, 100, 4000, 100000}: repl.AutoLoad (a line at a time) versus evaluation in one go", len(lens)))
+}
+
 func runC15(c *core.Ctx) {
 	// (no token.Init() here: resetting the interning table invalidates the token pointers the evaluator keeps, e.g.
 	// for unquote, and the scripts with macros would silently stop being cases)
@@ -289,6 +486,8 @@ func runC15(c *core.Ctx) {
 	opt.mutations = 0 // byte mutations of the examples add nothing here: complete accepted programs only
 	var prefixes int64
 	var bounds []string
+	c15Interactive(c, &bounds)
+	c15AutoLoadLines(c, &bounds)
 	// (the script family runs first: it is the cheaper one and must not be starved by the corpus when time is short)
 	// scripts
 	if !c.Expired() {
@@ -377,9 +576,9 @@ func runC15(c *core.Ctx) {
 
 func init() {
 	core.Register(&core.Check{
-		ID:    "C15",
-		Level: "exploration",
-		Rule: "the source-text corpus of C02 (grammar trees by size, two-level trees, adjacency, literals, comments, shipped programs): every accepted text is parsed in line mode and file mode (equal canonical dumps incl. comment placement flags, no error, no continuation); every proper prefix ending at a token boundary that the harness's own bracket/operator tracker classifies as inside an unclosed ( [ {, or right after a binary operator, and every cut inside a string or block comment token, must set ContinuationNeeded and report no error; scripts (all short statement sequences that run without error) are fed in every split into consecutive chunks through repl.EvalOne in line mode on one persistent state and must give the same printed output and final globals as the whole script. Non-trivial = accepted texts / error-free scripts.",
+		ID:          "C15",
+		Level:       "exploration",
+		Rule:        "the source-text corpus of C02 (grammar trees by size, two-level trees, adjacency, literals, comments, shipped programs): every accepted text is parsed in line mode and file mode (equal canonical dumps incl. comment placement flags, no error, no continuation); every proper prefix ending at a token boundary that the harness's own bracket/operator tracker classifies as inside an unclosed ( [ {, or right after a binary operator, and every cut inside a string or block comment token, must set ContinuationNeeded and report no error; scripts (all short statement sequences that run without error) are fed in every split into consecutive chunks through repl.EvalOne in line mode on one persistent state and must give the same printed output and final globals as the whole script. Non-trivial = accepted texts / error-free scripts.",
 		Assume:      []string{"token boundaries are taken from the lexer (checked by C16); the bracket/operator tracker is the harness's own"},
 		QuickCap:    100 * time.Second,
 		ThoroughCap: 20 * time.Minute,
